@@ -80,6 +80,23 @@ def _search(quick=True, seed=0, only=None):
                     m.filter(Signal(content=text))
                 except Exception as e:
                     return n, f"Membrane.filter raised {type(e).__name__} on hostile input {text[:20]!r} (len {len(text)})"
+    # "keeps blocking an input it has blocked before even after rules are relaxed" -- for every configuration, in particular with adaptive learning off
+    for adaptive in ((True, False) if only != "innate" else ()):
+        for relax in ("threshold", "signature"):
+            n += 1
+            with contextlib.redirect_stdout(io.StringIO()):
+                custom = ThreatSignature("wombat", ThreatLevel.DANGEROUS, "custom")
+                m = Membrane(signatures=[custom], threshold=ThreatLevel.DANGEROUS, enable_adaptive=adaptive, silent=True)
+                text = "please pet the WOMBAT now"
+                r1 = m.filter(Signal(content=text))
+                if relax == "threshold":
+                    m.set_threshold(ThreatLevel.CRITICAL)
+                else:
+                    m.signatures.remove(custom)
+                r2 = m.filter(Signal(content=text))
+            if not r1.allowed and r2.allowed:
+                return n, (f"Membrane(enable_adaptive={adaptive}): input blocked before is admitted after the rules were relaxed "
+                           f"({'threshold raised to CRITICAL' if relax == 'threshold' else 'the custom signature removed'}): {text!r}")
     # custom signatures given to the constructor are scanned
     for k in ((1, 2) if only != "innate" else ()):
         n += 1
